@@ -12,6 +12,31 @@ use std::process::{Command, Stdio};
 
 const FORMS: [(&str, char, usize); 4] = [("[", ']', 1), ("[1,", ']', 2), ("{\"k\":", '}', 3), ("{\"a\":1,\"k\":", '}', 6)];
 
+/// The ways a container is entered: (text before the nested value, text after it, fragments it
+/// contributes). Forms 0..4 are the narrow ones; forms 4..7 are *wide*: the container holds
+/// `width` further items or members (before the nested value, or half before and half after), so
+/// that per-container shortcuts keyed on the number of items are pumped together with the depth.
+fn form(idx: usize, width: usize) -> (String, String, usize) {
+    match idx {
+        0..=3 => (FORMS[idx].0.to_string(), FORMS[idx].1.to_string(), FORMS[idx].2),
+        4 => (format!("[{}", "0,".repeat(width)), "]".to_string(), 1 + width),
+        5 => (format!("{{{}\"k\":", "\"a\":0,".repeat(width)), "}".to_string(), 1 + 3 * width + 2),
+        _ => {
+            let h = width / 2;
+            (format!("[{}", "0,".repeat(h)), format!("{}]", ",0".repeat(width - h)), 1 + width)
+        }
+    }
+}
+
+fn form_name(idx: usize, width: usize) -> String {
+    match idx {
+        0..=3 => FORMS[idx].0.to_string(),
+        4 => format!("[0,*{width} then the nested value"),
+        5 => format!("{{\"a\":0,*{width} then \"k\": the nested value"),
+        _ => format!("[0,*{} the nested value ,0*{}]", width / 2, width - width / 2),
+    }
+}
+
 #[derive(Clone, Debug)]
 struct Case {
     word: Vec<usize>,
@@ -20,6 +45,25 @@ struct Case {
     entry: u8, // 0 parse_slice_with, 1 parse_str_with
     depth: usize,
     stack_kib: usize,
+    width: usize, // items per wide container (forms 4..7); 0 when the word has none
+}
+
+/// Words with at least one wide form: every word of length 1..=2 over the three wide forms and
+/// the two plain nestings `[` and `{"k":`.
+fn wide_words() -> Vec<Vec<usize>> {
+    let letters = [4usize, 5, 6, 0, 2];
+    let mut out: Vec<Vec<usize>> = Vec::new();
+    for &a in &letters {
+        if a >= 4 {
+            out.push(vec![a]);
+        }
+        for &b in &letters {
+            if a >= 4 || b >= 4 {
+                out.push(vec![a, b]);
+            }
+        }
+    }
+    out
 }
 
 fn words(max_len: usize) -> Vec<Vec<usize>> {
@@ -58,8 +102,25 @@ fn cases(tier: Tier) -> Vec<Case> {
                                 entry,
                                 depth: 50_000,
                                 stack_kib: 64,
+                                width: 0,
                             });
                         }
+                    }
+                }
+            }
+            // wide containers: widths on both sides of 32 and 256
+            for w in wide_words() {
+                for width in [33, 257] {
+                    for ending in 0..7 {
+                        v.push(Case {
+                            word: w.clone(),
+                            ending,
+                            rec: (false, false),
+                            entry: 0,
+                            depth: 4_000,
+                            stack_kib: 64,
+                            width,
+                        });
                     }
                 }
             }
@@ -76,6 +137,7 @@ fn cases(tier: Tier) -> Vec<Case> {
                                 entry,
                                 depth: 200_000,
                                 stack_kib: 64,
+                                width: 0,
                             });
                         }
                     }
@@ -90,31 +152,53 @@ fn cases(tier: Tier) -> Vec<Case> {
                         entry: 0,
                         depth: 2_000_000,
                         stack_kib: 256,
+                        width: 0,
                     });
+                }
+            }
+            for w in wide_words() {
+                for width in [5, 9, 17, 33, 65, 129, 257, 1025] {
+                    for ending in 0..7 {
+                        for entry in 0..2 {
+                            v.push(Case {
+                                word: w.clone(),
+                                ending,
+                                rec: (false, false),
+                                entry,
+                                depth: if width > 257 { 4_000 } else { 10_000 },
+                                stack_kib: 64,
+                                width,
+                            });
+                        }
+                    }
                 }
             }
         }
     }
+    // the huge cases last (they are run with less parallelism); the sort is stable
+    v.sort_by_key(|c| c.depth > 200_000);
     v
 }
 
 /// Builds the document and the expected number of fragments (closed ending).
 fn build(c: &Case) -> (String, usize, Option<(usize, Option<char>)>) {
     let mut s = String::new();
-    let mut closers = Vec::new();
+    let mut closers: Vec<&str> = Vec::new();
     let mut frags = 0;
+    let forms: Vec<(String, String, usize)> = (0..7).map(|i| form(i, c.width)).collect();
     for i in 0..c.depth {
-        let (open, close, f) = FORMS[c.word[i % c.word.len()]];
+        let (open, close, f) = &forms[c.word[i % c.word.len()]];
         s.push_str(open);
         closers.push(close);
         frags += f;
     }
+    let wrong_for = |closer: &str| if closer.ends_with(']') { '}' } else { ']' };
     s.push('0');
     frags += 1;
     match c.ending {
         0 => {
             for ch in closers.iter().rev() {
-                s.push(*ch);
+                s.push_str(ch);
             }
             (s, frags, None)
         }
@@ -126,7 +210,7 @@ fn build(c: &Case) -> (String, usize, Option<(usize, Option<char>)>) {
             // a complete deep value followed by garbage: the error is found when the value
             // has already been built (the parser has to dispose of it)
             for ch in closers.iter().rev() {
-                s.push(*ch);
+                s.push_str(ch);
             }
             let at = s.len();
             s.push('x');
@@ -135,10 +219,9 @@ fn build(c: &Case) -> (String, usize, Option<(usize, Option<char>)>) {
         4 => {
             // everything closed correctly except the outermost container
             for ch in closers.iter().rev().take(closers.len() - 1) {
-                s.push(*ch);
+                s.push_str(ch);
             }
-            let outer = closers[0];
-            let wrong = if outer == ']' { '}' } else { ']' };
+            let wrong = wrong_for(closers[0]);
             let at = s.len();
             s.push(wrong);
             (s, frags, Some((at, Some(wrong))))
@@ -151,20 +234,19 @@ fn build(c: &Case) -> (String, usize, Option<(usize, Option<char>)>) {
             t.push_str(open);
             t.push_str(&s);
             for ch in closers.iter().rev() {
-                t.push(*ch);
+                t.push_str(ch);
             }
             let at = t.len() + 1;
             t.push_str(sep);
             (t, frags, Some((at, Some('x'))))
         }
         _ => {
-            let inner = *closers.last().unwrap();
-            let wrong = if inner == ']' { '}' } else { ']' };
+            let wrong = wrong_for(closers.last().unwrap());
             let at = s.len();
             s.push(wrong);
             // (the rest is irrelevant: the parser stops at the wrong closer)
             for ch in closers.iter().rev().skip(1).take(3) {
-                s.push(*ch);
+                s.push_str(ch);
             }
             (s, frags, Some((at, Some(wrong))))
         }
@@ -264,7 +346,8 @@ fn case_json(i: usize, c: &Case, tier: Tier) -> J {
         "kind": "pump",
         "tier": tier.name(),
         "index": i,
-        "word": c.word.iter().map(|f| FORMS[*f].0).collect::<Vec<_>>(),
+        "word": c.word.iter().map(|f| form_name(*f, c.width)).collect::<Vec<_>>(),
+        "width": c.width,
         "ending": ending,
         "record": [c.rec.0, c.rec.1],
         "entry": entry,
@@ -387,7 +470,8 @@ pub fn run(rep: &mut Report, tier: Tier) {
     let mut t = t.into_inner().unwrap();
     t.sample(case_json(0, &cs[0], tier));
     t.sample(case_json(n - 1, &cs[n - 1], tier));
-    rep.bounds["pump"] = json!({"cases": n, "words": "all words of length 1..3 over {[, [1,, {\"k\":, {\"a\":1,\"k\":}", "endings": ["closed", "unclosed", "wrong innermost closer", "closed + trailing garbage", "wrong outermost closer", "deep first item then a bad item", "deep first member then a bad key"],
+    rep.bounds["pump"] = json!({"cases": n, "words": "all words of length 1..3 over {[, [1,, {\"k\":, {\"a\":1,\"k\":}; all words of length 1..2 with a wide container (array, object, array with the nested value in the middle) over widths on both sides of the power-of-two thresholds",
+        "widths": cs.iter().map(|c| c.width).collect::<std::collections::BTreeSet<_>>(), "endings": ["closed", "unclosed", "wrong innermost closer", "closed + trailing garbage", "wrong outermost closer", "deep first item then a bad item", "deep first member then a bad key"],
         "depths": cs.iter().map(|c| c.depth).collect::<std::collections::BTreeSet<_>>(), "stack_kib": cs.iter().map(|c| c.stack_kib).collect::<std::collections::BTreeSet<_>>()});
     rep.absorb(t);
 }
